@@ -60,7 +60,7 @@ def load_known_findings():
 
 
 def matches_finding(finding, prop_id, violation, task):
-    if finding.get("property") != prop_id:
+    if finding.get("property") not in (prop_id, "*"):
         return False
     match = finding.get("match", {})
     if "oracle" in match and match["oracle"] != violation.get("oracle"):
@@ -80,7 +80,8 @@ def matches_finding(finding, prop_id, violation, task):
 
 
 def signature_of(violation):
-    return {"property": violation["property"], "oracle": violation["oracle"]}
+    return {"property": violation["property"], "oracle": violation["oracle"],
+            "crash": (violation.get("detail") or {}).get("crash_signature")}
 
 
 def minimise(prop_id, prop, task, violation, budget=30):
